@@ -106,13 +106,113 @@ def search(ck):
     ck.sample({'element': 'Hs', 'isotopes': sorted(Element.from_symbol('Hs')().isotopes_distribution)})
 
 
+LOOKUP_PROBE = r"""
+import boot, sys, json
+from chython.periodictable import Element
+import chython.periodictable as pt
+mode = sys.argv[1]
+SY = sys.argv[2].split()
+out = []
+try:
+    if mode == 'subclass-number':      # first number lookup of the process goes through a concrete element class
+        first = pt.C.from_atomic_number(8).__name__
+    elif mode == 'instance-number':    # ... through an atom instance
+        first = pt.N().from_atomic_number(8).__name__
+    elif mode == 'subclass-symbol':
+        first = pt.C.from_symbol('O').__name__
+    elif mode == 'query-number':
+        first = pt.QueryElement.from_atomic_number(8).__name__
+    else:
+        first = Element.from_atomic_number(8).__name__
+except Exception as e:
+    first = 'raises ' + type(e).__name__
+out.append(['first', first])
+for n, sym in enumerate(SY, 1):
+    for fn, arg, exp in ((Element.from_atomic_number, n, sym), (Element.from_symbol, sym, sym)):
+        try:
+            got = fn(arg).__name__
+        except Exception as e:
+            got = 'raises ' + type(e).__name__
+        if got != exp:
+            out.append([fn.__name__, arg, got, exp])
+print(json.dumps(out))
+"""
+
+
+def search_lookup_entry_points(ck):
+    """the lookups are class methods with a process-wide cache: every entry point (base class, concrete element class, atom
+    instance, query class) must leave all 118 lookups intact, whichever is used FIRST in a fresh interpreter"""
+    import os
+    import subprocess
+    import sys
+    env = dict(os.environ)
+    for mode in ('base-number', 'subclass-number', 'instance-number', 'subclass-symbol', 'query-number'):
+        r = subprocess.run([sys.executable, '-c', LOOKUP_PROBE, mode, ' '.join(ORACLE_SYMBOLS)], env=env, capture_output=True, text=True, timeout=300)
+        ck.case(('lookup-entry', mode))
+        ck.count('lookup entry points probed in a fresh interpreter')
+        try:
+            res = json.loads(r.stdout.strip().split('\n')[-1])
+        except Exception:
+            ck.counterexample(f'lookup-entry:{mode}', f'lookup probe ({mode} first) crashed', {'first call': mode}, (r.stdout + r.stderr)[-400:], 'a result',
+                              'fresh interpreter probe')
+            continue
+        first = res[0][1]
+        want = 'QueryO' if mode == 'query-number' else 'O'
+        bad = res[1:]
+        if first != want or bad:
+            ck.counterexample(f'lookup-entry:{mode}', f'after a first lookup through {mode.split("-")[0]} the symbol / number lookups are no longer mutually inverse '
+                              f'and standard ({len(bad)} of 236 lookups wrong)', {'first call': mode}, {'first': first, 'wrong': bad[:5]}, {'first': want, 'wrong': []},
+                              'standard table, fresh interpreter',
+                              replay_py="import chython.periodictable as pt\nfrom chython.periodictable import Element\nprint(pt.C.from_atomic_number(8)); print(Element.from_atomic_number(6))")
+
+
+def search_pack_states(ck):
+    """every tabulated (element, isotope), every charge -4..4 with radical flag, every hydrogen count 0..4/None survives the real
+    pack -> unpack (the codecs run through the fail-closed .pyx transpiler): representability in the pack format, end to end"""
+    import pyxinject
+    try:
+        pyxinject.inject(('pack', 'unpack'))
+    except Exception as e:
+        ck.unchecked('pyx transpiler (pack/unpack) for the representability sweep', f'{type(e).__name__}: {e}')
+        return
+    from chython import MoleculeContainer
+    from chython.periodictable import Element
+    n_bad = 0
+    for n, sym in enumerate(ORACLE_SYMBOLS, 1):
+        cls = Element.from_symbol(sym)
+        states = [(iso, 0, False, 0) for iso in cls().isotopes_distribution]
+        states += [(None, ch, rad, 0) for ch in range(-4, 5) for rad in (False, True)]
+        states += [(None, 0, False, h) for h in (0, 1, 2, 3, 4, None)]
+        for iso, ch, rad, h in states:
+            m = MoleculeContainer()
+            a = cls(iso, charge=ch, is_radical=rad)
+            m.add_atom(a, 1, _skip_calculation=True)
+            m._atoms[1]._implicit_hydrogens = h
+            ck.case(('pack-state', sym, iso, ch, rad, h))
+            try:
+                u = MoleculeContainer.unpack(m.pack(), skip_labels_calculation=True)
+                b = u._atoms[1]
+                got = (b.atomic_symbol, b.isotope, b.charge, b.is_radical, b.implicit_hydrogens)
+            except Exception as e:
+                got = f'raises {type(e).__name__}: {e}'
+            exp = (sym, iso, ch, rad, h)
+            if got != exp and n_bad < 12:
+                n_bad += 1
+                ck.counterexample(f'pack-state:{sym}:{iso}:{ch}:{rad}:{h}', f'{sym}: the state (isotope {iso}, charge {ch}, radical {rad}, hydrogens {h}) does not survive pack -> unpack',
+                                  {'element': sym, 'isotope': iso, 'charge': ch, 'radical': rad, 'hydrogens': h}, got, exp, 'pack/unpack round trip of a one-atom molecule',
+                                  replay_py=f"import pyxinject; pyxinject.inject(('pack','unpack'))\nfrom chython import MoleculeContainer\nfrom chython.periodictable import Element\n"
+                                            f"m=MoleculeContainer(); m.add_atom(Element.from_symbol({sym!r})({iso!r}, charge={ch}, is_radical={rad}), 1, _skip_calculation=True); m._atoms[1]._implicit_hydrogens={h!r}\n"
+                                            f"u=MoleculeContainer.unpack(m.pack(), skip_labels_calculation=True); a=u._atoms[1]; print(a.atomic_symbol, a.isotope, a.charge, a.is_radical, a.implicit_hydrogens)")
+    ck.count('pack-state sweep (elements x isotopes, charges x radical, hydrogens)')
+
+
 replay = common.generic_replay
 
 
 def run(ck):
     ck.trusted += ['translator tools/gen_elements.py (Python ast over periodictable/group*.py; regex over the two .pyx tables)',
                    'tools/gen_runtime.py (imports chython under the CachedMethods shim harness/boot.py)',
-                   'CPython 3.12.1']
+                   'CPython 3.12.1', 'tools/pyx2py.py (fail-closed .pyx transpiler, for the pack representability sweep)']
     ck.assumptions += ['generated coq/gen/Elements.v is a faithful copy of the literals in /repo (translator is fail-closed; '
                        'the Python sweep below re-derives every statement from the live classes without the translator)']
     ck.extra['rule'] = ('proof: every statement quantifies over the complete generated table (118 elements x all tabulated isotopes); '
@@ -121,4 +221,6 @@ def run(ck):
     ck.extra['exhaustive'] = True
     proved = common.standard_proof_steps(ck, translators=['elements', 'runtime'])
     search(ck)
+    search_lookup_entry_points(ck)
+    search_pack_states(ck)
     ck.extra['proved'] = proved
